@@ -393,8 +393,9 @@ def run(ck):
             if not into:
                 continue
             own = prog.owner(f)
-            ok = own.base in OWNERS
-            ck.ob("C06-R9", "%s: %s" % (own.base.replace(T, ""), nm), ok, e.loc, f,
+            # (the owners themselves, lambdas written in them, and helpers all of whose call sites lie in them)
+            ok = own.base in OWNERS or lib.only_reached_from(prog, own, OWNERS)
+            ck.ob("C06-R9", "%s: %s" % ((own.base if own.base in OWNERS else "helper").replace(T, ""), nm) if ok else "%s: %s" % (own.base.replace(T, ""), nm), ok, e.loc, f,
                   "in the drain routine / the release path" if ok else
                   "`%s` in %s removes pending writes outside the drain routine and the release path: the bytes never reach the peer and their promises are never settled"
                   % ((e.get("t") or "")[:60], own.name))
